@@ -207,32 +207,32 @@ impl DumpHeader {
             }
         }
 
-        let mut level_count = vec![0u32; header.nvars as usize];
-        for &level in &header.permids {
-            let Some(count) = level_count.get_mut(level as usize) else {
-                return err(format!(
-                    "levels in .permids must be less than .nvars ({})",
-                    header.nvars,
-                ));
-            };
-            if *count != 0 {
-                return err(format!("level ({level}) occurs twice in .permids"));
+        // Note: no allocation proportional to `.nvars` here (it is an untrusted
+        // count, not bounded by the size of the input): the positions of the
+        // levels are determined from the sorted list of the `.permids` entries.
+        {
+            let mut seen = std::collections::HashSet::with_capacity(header.permids.len());
+            for &level in &header.permids {
+                if level >= header.nvars {
+                    return err(format!(
+                        "levels in .permids must be less than .nvars ({})",
+                        header.nvars,
+                    ));
+                }
+                if !seen.insert(level) {
+                    return err(format!("level ({level}) occurs twice in .permids"));
+                }
             }
-            *count = 1;
         }
-        // accumulate the counts such that level_count maps from the level
-        // number to the position
-        let mut count = 0;
-        for i in level_count.iter_mut() {
-            let present = *i;
-            *i = count;
-            count += present;
-        }
+        let mut sorted_levels = header.permids.clone();
+        sorted_levels.sort_unstable();
         header.support_var_order.resize(nsuppvars as usize, 0);
         for (&var, &level) in header.ids.iter().zip(&header.permids) {
-            header.support_var_order[level_count[level as usize] as usize] = var;
+            // `level` is in `sorted_levels`, all entries are distinct
+            let pos = sorted_levels.binary_search(&level).unwrap();
+            header.support_var_order[pos] = var;
         }
-        drop(level_count);
+        drop(sorted_levels);
 
         if !orderedvarnames.is_empty() && orderedvarnames.len() != header.nvars as usize {
             return err(format!(
@@ -255,7 +255,14 @@ impl DumpHeader {
                         break 'var_names;
                     }
                     debug_assert!(!suppvarnames.is_empty());
-                    header.varnames = vec![String::new(); header.nvars as usize];
+                    // `.nvars` is not bounded by the size of the input
+                    if header.varnames.try_reserve_exact(header.nvars as usize).is_err() {
+                        return err(format!(
+                            "cannot allocate the names of {} variables (.nvars)",
+                            header.nvars,
+                        ));
+                    }
+                    header.varnames.resize(header.nvars as usize, String::new());
                     for (name, &target) in suppvarnames.into_iter().zip(&header.ids) {
                         header.varnames[target as usize] = name;
                     }
